@@ -1,6 +1,7 @@
 import CogentModel.Json
 import CogentModel.Model.AtomicWrite
 import CogentModel.Model.Composable
+import CogentModel.Model.StoreWrite
 import Driver.C14Codec
 open CogentModel CogentModel.AtomicWrite
 
@@ -75,6 +76,39 @@ def handle (cmd : String) (j : J) : Except String J :=
     let k ← (← j.get "k").toNat
     pure (.obj [("state", stateJ c (faultState c fs k)),
                 ("trace", .arr ((faultTrace c k).map fun i => callJ c i.call))])
+  | "prog_tmp" => do
+    -- atomic_write(path, tmpdir=D): D = c.tmpdir exists and holds an unrelated file
+    let c ← parseCfg (← j.get "cfg")
+    let cl ← match ← (← j.get "cleanup").toStr with
+      | "rmtree_dir" => pure TmpCleanup.rmtreeDir
+      | "unlink_file" => pure TmpCleanup.unlinkFile
+      | s => throw s!"bad cleanup {s}"
+    let precious : Path := c.tmpdir ++ [7]
+    let fs := upd (upd (initFS c (← parseNode (← j.get "dest"))) c.tmpdir (some .dir)) precious (some (.file [1]))
+    let r := exec fs (programTmp c cl)
+    pure (.obj [("prog", .arr ((programTmp c cl).map fun i => callJ c i.call)), ("dest", nodeJ (r.1 c.dest)),
+                ("caller_file_kept", .bool ((r.1 precious).isSome)), ("error", .bool r.2.isSome)])
+  | "fine" => do
+    -- record-granular resume: inputs [[m, ok?]], crash point (j, p); cells after the crash, after the re-run, uninterrupted
+    let var ← match ← (← j.get "variant").toStr with
+      | "in_place" => pure StoreWrite.Variant.inPlace
+      | "atomic_md5_first" => pure StoreWrite.Variant.atomicMd5First
+      | s => throw s!"bad variant {s}"
+    let inputs ← (← j.get "inputs").toListOf (J.toPairOf J.toNat J.toBool)
+    let ms := inputs.map (·.1)
+    let app : Nat → Composable.Val := fun m =>
+      if ((inputs.find? (·.1 == m)).map (·.2)).getD true then .ok ⟨1, m, some m⟩ else .nc ⟨.error, 1, .exc 1, some m⟩
+    let idOf : Nat → Nat := fun m => m
+    let s0 : StoreWrite.FStore := fun _ => StoreWrite.Cell.none
+    let cj ← (← j.get "j").toNat
+    let cp ← (← j.get "p").toNat
+    let s1 := StoreWrite.exec s0 (StoreWrite.crashOps var idOf app s0 ms cj cp)
+    let s2 := StoreWrite.resumed var idOf app s0 ms cj cp
+    let s3 := StoreWrite.uninterrupted var idOf app s0 ms
+    let slot : StoreWrite.Slot → J := fun
+      | .absent => .str "absent" | .empty => .str "empty" | .full _ => .str "full"
+    let cells : StoreWrite.FStore → J := fun s => .arr (ms.map fun (m : Nat) => .arr [.num (m : Int), slot (s m).data, slot (s m).nc, slot (s m).md5])
+    pure (.obj [("crash", cells s1), ("resumed", cells s2), ("uninterrupted", cells s3)])
   | "apply" => C14Codec.handleApply j
   | _ => throw s!"unknown command {cmd}"
 
